@@ -7,6 +7,9 @@
 (* evaluates the terms and compares (TLC has no reals).  A record whose    *)
 (* shape is not admissible is rejected (`bad`).  Decisions that sit on an  *)
 (* exact half-cell tie are reported as ties, never asserted.               *)
+(* prq / divcurl records carry `order`, the row order of the neighbour     *)
+(* file (a permutation of the ids): the expectation does not depend on it. *)
+(* vib records may carry frequency entries of either sign.                 *)
 (***************************************************************************)
 EXTENDS VectorField, TLC, Json, IOUtils
 
@@ -18,15 +21,18 @@ vars == <<l, bad>>
 QRs(s) == [x \in 1..Len(s) |-> QR(s[x])]
 
 WellFormed(rec) ==
-  IF rec.m = "prq" THEN Len(rec.nl) = Len(rec.e) /\ \A i \in 1..Len(rec.e) : Len(rec.nl[i]) >= 1 /\ Len(rec.e[i]) = rec.d
-  ELSE IF rec.m = "divcurl" THEN Len(rec.nl) = Len(rec.pos) /\ Len(rec.u) = Len(rec.pos) /\ Len(rec.H) = rec.d
-  ELSE IF rec.m = "vib" THEN Len(rec.ev) = rec.d * rec.n /\ \A x \in 1..Len(rec.om) : rec.om[x] > 0
+  IF rec.m = "prq" THEN /\ Len(rec.nl) = Len(rec.e) /\ \A i \in 1..Len(rec.e) : Len(rec.nl[i]) >= 1 /\ Len(rec.e[i]) = rec.d
+                        /\ IsPerm(rec.order, Len(rec.nl))
+  ELSE IF rec.m = "divcurl" THEN /\ Len(rec.nl) = Len(rec.pos) /\ Len(rec.u) = Len(rec.pos) /\ Len(rec.H) = rec.d
+                                 /\ IsPerm(rec.order, Len(rec.nl))
+  ELSE IF rec.m = "vib" THEN Len(rec.ev) = rec.d * rec.n /\ \A x \in 1..Len(rec.om) : rec.om[x] # 0   \* either sign
   ELSE IF rec.m = "decomp" THEN Len(rec.pm) = Len(rec.e) /\ Len(rec.L) = rec.d /\ \A x \in 1..Len(rec.qs) : rec.qs[x] # Zero(rec.d)
   ELSE FALSE
 
 ExpPrq(r) ==
   IF ~PRDefined(r.e) THEN [tie |-> TRUE]
   ELSE [ tie   |-> FALSE,
+         rows  |-> NlRows(r.nl, r.order),      \* the file as it is to be written (rows in the recorded order)
          pr    |-> QR(PR(r.e)),
          align |-> [i \in 1..Len(r.e) |-> QR(Align(r.e, r.nl, i, r.S))],
          pq    |-> IF PQDefined(r.e, r.nl) THEN QR(PQ(r.e, r.nl)) ELSE "undef" ]
@@ -34,6 +40,7 @@ ExpPrq(r) ==
 ExpDc(r) ==
   IF PairTie(r.H, r.ppp, r.pos, r.nl) THEN [tie |-> TRUE]
   ELSE [ tie  |-> FALSE,
+         rows |-> NlRows(r.nl, r.order),
          div  |-> [i \in 1..Len(r.pos) |-> QR(Divergence(r.H, r.ppp, r.pos, r.u, r.nl, i, r.S, r.SU))],
          curl |-> IF r.d = 3 THEN [i \in 1..Len(r.pos) |-> QRs(CurlVec(r.H, r.ppp, r.pos, r.u, r.nl, i, r.S, r.SU))]
                   ELSE << >> ]
